@@ -3222,3 +3222,19 @@ mod tests {
         }
     }
 }
+
+// ========================================================================
+// Verification hooks (only with `--cfg crrl_verif`).
+
+#[cfg(crrl_verif)]
+impl Point {
+    /// Raw internal coordinates (E, U, Z, T).
+    pub fn verif_coords(&self) -> [GF255s; 4] {
+        [self.E, self.U, self.Z, self.T]
+    }
+
+    /// Rebuild a point from raw internal coordinates (not validated).
+    pub fn verif_from_coords(c: &[GF255s; 4]) -> Self {
+        Self { E: c[0], U: c[1], Z: c[2], T: c[3] }
+    }
+}
